@@ -399,13 +399,19 @@ pub fn tile_to_world(tile_x: u32, tile_y: u32) -> (f32, f32) {
 
 /// Convert world coordinates to ADT tile coordinates
 pub fn world_to_tile(world_x: f32, world_y: f32) -> (u32, u32) {
-    const MAP_SIZE: f32 = 533.333_3;
-    const MAP_OFFSET: f32 = 32.0 * MAP_SIZE;
+    // Evaluate in f64 and nudge by a thousandth of a tile before flooring: `tile_to_world` returns
+    // tile corners, where the f32 quotient can fall just below the integer and truncate to the
+    // neighbouring tile. Positions away from a boundary are unaffected.
+    const MAP_SIZE: f64 = 1600.0 / 3.0;
+    const MAP_OFFSET: f64 = 32.0 * MAP_SIZE;
+    const GUARD: f64 = 1.0e-3;
 
-    let tile_x = ((MAP_OFFSET - world_y) / MAP_SIZE) as u32;
-    let tile_y = ((MAP_OFFSET - world_x) / MAP_SIZE) as u32;
+    let to_tile = |w: f32| -> u32 {
+        let t = ((MAP_OFFSET - w as f64) / MAP_SIZE + GUARD).floor();
+        t.clamp(0.0, 63.0) as u32
+    };
 
-    (tile_x.min(63), tile_y.min(63))
+    (to_tile(world_y), to_tile(world_x))
 }
 
 #[cfg(test)]
